@@ -5,7 +5,7 @@ from common import *
 PID = "C03"
 PROPS = "props/C03.v"
 GOTAB = ["aztec.go"]
-GOFILES = ["aztec.go"]
+GOFILES = ["aztec.go", "all.go"]
 EXTRACT = ["base", "aztec"]
 HANDLERS = ["h_aztec.ml"]
 
@@ -450,3 +450,14 @@ def cases(tier, rng):
             for n in ((88, 92, 95) if tier == "quick" else range(84, 100)):
                 L.append("az %d %d %s" % (pct, req, ("A !" * 40)[:n].encode().hex()))
     return L
+
+
+def public_line(line):
+    t = line.split(" ")
+    return "encfull " + line if t[0] == "az" and len(t) == 4 else None
+
+
+def extra(rep, impl_exe, model_exe, rng, tier):
+    # returned barcodes must remain what they were when other symbols are encoded afterwards
+    import held
+    return held.held_phase(rep, impl_exe, rng, ['az 33 0', 'az 23 -2', 'az 0 5', 'az 90 0'], n=8 if tier == "quick" else 60)
